@@ -6,6 +6,7 @@ from skepticoin.networking.remote_peer import ConnectedRemotePeer, DisconnectedR
 from skepticoin.networking.remote_peer import INCOMING, LISTENING_SOCKET, OUTGOING
 from skepticoin.networking.disk_interface import DiskInterface
 import socket
+import threading
 import traceback
 import sys
 from datetime import datetime
@@ -44,6 +45,11 @@ class LocalPeer:
         self.logger = logging.getLogger("skepticoin.networking.%s" % self.nonce)
         self.last_stats_output: str = ""
         self.running = False
+
+        # The networking thread holds this lock while it steps the managers and handles socket events; any other
+        # thread (the miner, the scripts) must hold it while it changes the chain state, the block store's buffer or
+        # the peers' send buffers.
+        self.lock = threading.RLock()
 
     def start_listening(self, port: int = PORT) -> None:
         try:
@@ -157,22 +163,24 @@ class LocalPeer:
         self.network_manager.handle_peer_connected(remote_peer)
 
     def step_managers(self, current_time: int) -> None:
-        for manager in self.managers:
-            if not self.running:
-                break
+        with self.lock:
+            for manager in self.managers:
+                if not self.running:
+                    break
 
-            manager.step(current_time)
+                manager.step(current_time)
 
     def handle_selector_events(self) -> None:
         events = self.selector.select(timeout=1)  # TODO this is for the managers to do something... tune it though
-        for key, mask in events:
-            if not self.running:
-                break
+        with self.lock:
+            for key, mask in events:
+                if not self.running:
+                    break
 
-            if key.data is LISTENING_SOCKET:
-                self.handle_incoming_connection(key.fileobj)  # type: ignore
-            else:
-                self.handle_remote_peer_selector_event(key, mask)
+                if key.data is LISTENING_SOCKET:
+                    self.handle_incoming_connection(key.fileobj)  # type: ignore
+                else:
+                    self.handle_remote_peer_selector_event(key, mask)
 
     def run(self) -> None:
         self.running = True
